@@ -22,6 +22,20 @@ def read_one(arg):
     except Exception as e:
         return c, None, repr(e)
     stored = list(m['sst'])
+    c['origin_sst'] = []
+    if c.get('lazy_origin'):
+        try:
+            om = xlsx_decode.decode(os.path.join(out_dir, c['lazy_origin']))
+            c['origin_sst'] = list(om['sst'])
+            extra = set()
+            for s in om['sheets']:
+                if s['name'] in c.get('unloaded_sheets', []):
+                    for ref, cell in s['cells'].items():
+                        if cell['k'] == 's':
+                            extra.add(cell['v'])
+            c['reachable'] = sorted(set(c['reachable']) | extra)
+        except Exception as e:
+            return c, None, 'origin file: %r' % e
     cell_texts = set()
     for s in m['sheets']:
         for ref, cell in s['cells'].items():
@@ -53,7 +67,12 @@ def check(out_dir, procs=16):
         stored, cell_texts = got
         strings += len(stored)
         reach = set(c['reachable'])
-        leaked = [t for t in stored if t not in reach]
+        leaked_all = [t for t in stored if t not in reach]
+        # strings the lazily loaded file already held: the save starts from a copy of the loaded table (separate class)
+        stale = [t for t in leaked_all if t in set(c.get('origin_sst', []))]
+        leaked = [t for t in leaked_all if t not in set(c.get('origin_sst', []))]
+        if stale:
+            div('stale-string-of-lazily-loaded-file', c, '%s holds %d string(s) of the file the workbook was lazily opened from that are no longer reachable, e.g. %r' % (c['file'], len(stale), stale[0]))
         if leaked:
             t = leaked[0]
             kind = 'clone-or-other-workbook' if c['nbooks'] > 1 else 'overwritten-or-deleted'
